@@ -7,6 +7,17 @@ use aws_smt_strings::character_sets::{CharSet, ClassId};
 use aws_smt_strings::smt_strings::SmtString;
 use std::panic::{catch_unwind, AssertUnwindSafe};
 
+/// State names given to the builder: equality is exact but the hash is deliberately coarse
+/// (legal in Rust: equal values hash equally), so that a builder that identifies states by their
+/// hash instead of by Eq is exposed.
+#[derive(Clone, Debug, PartialEq, Eq)]
+struct Key(u32);
+impl std::hash::Hash for Key {
+    fn hash<H: std::hash::Hasher>(&self, state: &mut H) {
+        (self.0 % 3).hash(state)
+    }
+}
+
 fn all_words(alpha: &[u32], k: usize) -> Vec<Vec<u32>> {
     let mut res: Vec<Vec<u32>> = vec![vec![]];
     let mut last: Vec<Vec<u32>> = vec![vec![]];
@@ -103,7 +114,7 @@ fn observe(a: &mut Automaton, t: &[&str]) -> String {
 
 pub fn run(t: &[&str]) -> String {
     let mut out: Vec<String> = Vec::new();
-    let mut builder: Option<AutomatonBuilder<u32>> = None;
+    let mut builder: Option<AutomatonBuilder<Key>> = None;
     let mut aut: Option<Automaton> = None;
     for s in t.split(|x| *x == ";") {
         if s.is_empty() {
@@ -114,25 +125,25 @@ pub fn run(t: &[&str]) -> String {
             let op = c.next();
             match op {
                 "new" => {
-                    builder = Some(AutomatonBuilder::new(&c.u()));
+                    builder = Some(AutomatonBuilder::new(&Key(c.u())));
                     None
                 }
                 "add" => {
-                    let k = c.u();
+                    let k = Key(c.u());
                     let a = c.u();
                     let bb = c.u();
-                    let k2 = c.u();
+                    let k2 = Key(c.u());
                     builder.as_mut().unwrap().add_transition(&k, &CharSet::range(a, bb), &k2);
                     None
                 }
                 "def" => {
-                    let k = c.u();
-                    let k2 = c.u();
+                    let k = Key(c.u());
+                    let k2 = Key(c.u());
                     builder.as_mut().unwrap().set_default_successor(&k, &k2);
                     None
                 }
                 "fin" => {
-                    let k = c.u();
+                    let k = Key(c.u());
                     builder.as_mut().unwrap().mark_final(&k);
                     None
                 }
